@@ -79,6 +79,15 @@ def build(c, ws, origin, unsaved):
                 ops.append({"op": "req", "file": f0["name"], "kind": kind, "line": o["line"] - 1, "char": o["c0"] + (1 if o["quoted"] else 0), "newName": NEWNAME[o["k"]]})
         for n in others:
             ops.append({"op": "close", "file": n})
+    elif unsaved == "typed":
+        # the root document is opened with its include directives still missing (comment lines in their place) and they are
+        # typed afterwards (one didChange, not saved): everything they reach, at every depth, belongs to the journal now
+        rootn = c["files"][0]["name"]
+        bare = "\n".join("; include later" if l.startswith("include ") else l for l in files[rootn].split("\n"))
+        ops.append({"op": "open", "file": rootn, "text": bare})
+        ops.append({"op": "change", "file": rootn, "text": files[rootn]})
+        if f0["name"] != rootn:
+            ops.append({"op": "open", "file": f0["name"], "text": files[f0["name"]]})
     elif unsaved:
         # every file in the request's scope is open and carries an unsaved edit at its top
         for i in scope_files(c, ws, origin):
@@ -254,6 +263,8 @@ def main(args):
                         combos.append((c, ws, origin, "open"))
                     if k == 4 or thorough:
                         combos.append((c, ws, origin, "closed"))
+                    if k == 2 or k == 5 or thorough:
+                        combos.append((c, ws, origin, "typed"))
     built = [build(c, ws, origin, unsaved) for (c, ws, origin, unsaved) in combos]
     hcs = [dict(b[0], id=str(i)) for i, b in enumerate(built)]
     results = run.harness("script", hcs, timeout=3400)
